@@ -65,4 +65,17 @@ def parse (bs : List UInt8) : Res (Nat × Option Nat) := parseWith 10 bs
 /-- the code before the fix (`i <= 10`) — used only by the counterexample theorem -/
 def parseOrig (bs : List UInt8) : Res (Nat × Option Nat) := parseWith 11 bs
 
+/-! ### several values in ONE buffer (round 8): dump at an offset, parse at an offset -/
+
+/-- `memcpy`-like store of `d` at `off` (caller guarantees `off + d.length ≤ mem.length`) -/
+def poke (mem : List UInt8) (off : Nat) (d : List UInt8) : List UInt8 := mem.take off ++ d ++ mem.drop (off + d.length)
+
+/-- `DumpScalableInteger(v, buf + off, size - off)`: return value and the buffer afterwards -/
+def dumpAt (buf : List UInt8) (off v : Nat) : Res (Nat × List UInt8) := do
+  let (n, out) ← dump v (buf.length - off)
+  pure (n, poke buf off out)
+
+/-- `ParseScalableInteger(buf + off, size - off, value)` -/
+def parseAt (buf : List UInt8) (off : Nat) : Res (Nat × Option Nat) := parse (buf.drop off)
+
 end Tbox.C19.SInt
